@@ -3,6 +3,7 @@ package props
 import (
 	"fmt"
 	"go/token"
+	"strings"
 
 	"ndndcheck/core"
 
@@ -14,6 +15,12 @@ func C06(c *core.Ctx) {
 	c.Explain = "Decides structural necessary conditions of C06; the flattening itself over all histories is behavioural and not decided. (R6.1) in RibEntry.updateNexthopsEnc every call that mutates the FIB (ClearNextHopsEnc / InsertNextHopEnc) is reachable only on the edge asserting that the entry is a named one (Name != nil) — name-less filler nodes would address the root FIB entry; the recursion into children is unconditional so inheritance still propagates through fillers; (R6.2) inherited routes are collected only when the entry itself holds no capture route, only child-inherit routes are taken from ancestors, and the ancestor walk has an exit on the edge asserting HasCaptureRoute() of the loop cursor placed after that ancestor's routes were taken; (R6.3) the per-face cost is overwritten only under 'absent ∨ cheaper'; (R6.4) every function that stores to RibEntry.routes or Route.Cost/Flags reaches updateNexthopsEnc of that entry on all exits, face removal reaches Rib.CleanUpFace, which recurses into every child; (R6.5) the face-cleanup scan over an entry's routes has no exit other than exhaustion (routes are keyed by (face, origin), so several may match)."
 	c.RuleText = "instances: FIB-mutator calls in fw/table/rib.go, the ancestor walk, the min-cost map update, every function storing to RibEntry.routes / Route.Cost / Route.Flags (discovered by scanning stores), face-table removal. Non-trivial = has a branch edge or path to decide."
 	p := c.P
+	// ---- R6.9 (shared with C08 R8.4) the RIB's prune walk unlinks only entries that have
+	// neither routes nor children: otherwise sibling subtrees are orphaned and their routes
+	// no longer reach the FIB
+	c.Import(C08, "R6.9", "RIB pruning can detach an entry that still has routes or children: the routes below it stay registered but are no longer flattened into the FIB", 2, func(k string) bool {
+		return strings.HasPrefix(k, "R8.4:") && strings.Contains(k, "RibEntry")
+	})
 
 	up := c.Fn("R6.1", "fw/table", "RibEntry", "updateNexthopsEnc")
 	if up != nil {
